@@ -488,4 +488,6 @@ func main() {
 	}
 	fmt.Fprintf(&sb, "Definition go_package_var_writes : list string := [%s].\n", strings.Join(vw, "; "))
 	w("Scan.v", sb.String())
+	// CodecGo.v: the four codec functions translated into the representation of Gen/CodecIR.v
+	w("CodecGo.v", translateCodecs(*repo, ints))
 }
